@@ -493,3 +493,49 @@ def rule_allocsize(ctx, prop: str) -> RuleResult:
         raise AnalysisError(f"ALLOCSIZE: expected >= 4 iterator substitutions through _replace_reads, found {len(callers)}")
     res.floor = 5
     return res
+
+
+def rule_ancestorfact(ctx, prop: str) -> RuleResult:
+    """Walking back from a statement with `move_back` visits earlier SIBLINGS as well as
+    enclosing scopes.  A fact that holds only inside a construct — the bounds of a loop
+    iterator, the truth value of an `if` condition — may be collected only from constructs
+    that enclose the statement: every For / If case of such a walk that records a fact
+    must test `is_ancestor_of`."""
+    ix = ctx.ix
+    res = RuleResult("ANCESTORFACT")
+    m = ix.module(S)
+    n = 0
+    for f in m.funcs.values():
+        if not isinstance(f.node, ast.FunctionDef):
+            continue
+        for loop in f.body_nodes():
+            if not (isinstance(loop, ast.While) and "LoopIR.proc" in ast.unparse(loop.test)):
+                continue
+            if not any(isinstance(k, ast.Call) and last_name(k) == "move_back" for b in loop.body for k in ast.walk(b)):
+                continue
+            for k in loop.body:
+                node = k
+                while isinstance(node, ast.If):
+                    t = ast.unparse(node.test)
+                    for kind in ("LoopIR.For", "LoopIR.If"):
+                        if f"isinstance(s, {kind})" in t.replace("c._node", "s"):
+                            records = any(isinstance(x, ast.Call) and isinstance(x.func, ast.Attribute) and x.func.attr in ("append", "add", "extend") for b in node.body for x in ast.walk(b))
+                            if records:
+                                n += 1
+                                res.instances += 1
+                                res.nontrivial += 1
+                                res.analysed.append(f"{S}:{f.qualname}")
+                                ok = "is_ancestor_of" in t
+                                res.ob(ok)
+                                res.sample(f"{f.qualname}: facts from `{kind}` are taken from enclosing constructs only: {ok}")
+                                if not ok:
+                                    res.add(
+                                        Finding("ANCESTORFACT", S, node.lineno, f.qualname, kind,
+                                                f"{f.qualname} records a fact for every `{kind.split('.')[1]}` met while walking back, including earlier siblings that do not enclose the statement: "
+                                                f"extract_subproc on `if n > 4: …; x[1] = 2.0` gives the callee `assert (n > 4) == False`, which the call site does not guarantee")
+                                    )
+                    node = node.orelse[0] if len(node.orelse) == 1 and isinstance(node.orelse[0], ast.If) else None
+    if n < 3:
+        raise AnalysisError(f"ANCESTORFACT: expected >= 3 fact-recording cases in walk-back loops, found {n}")
+    res.floor = 3
+    return res
